@@ -333,6 +333,11 @@ func runWorldSeq(s *kernel.Sim, p profile) {
 						d.CloseConn(old)
 					}
 				}
+				if p.prop == "C09" && a.IsHost && d.choose("rolechange", 8) == 0 {
+					// the node behind this identity now runs as a light client: it registers as one
+					a.IsHost = false
+					s.Fault("host_registers_again_as_light_client")
+				}
 				payout, ov := "", ""
 				if a.Wallet != nil && d.choose("payout", 3) == 0 {
 					payout = a.Wallet.Addr
@@ -435,7 +440,7 @@ func runWorldSeq(s *kernel.Sim, p profile) {
 					}
 					d.Connect(a, "", ov, true)
 				} else {
-					d.Peer(a, d.choose("asked", 4), a.Kind, true)
+					d.Peer(a, d.choose("asked", 6)-2, a.Kind, true)
 				}
 			}
 		}
